@@ -12,21 +12,21 @@ open GrpcModel.XdsAuth GrpcProofs.Lemmas.XdsAuth
 
 /-! ### switching to a lower-priority server -/
 
-/-- The only event that moves the active server to a lower priority is a stream failure that happened before
-    any response (`afterRecv = false`) while some watched resource is still in state REQUESTED — which in every
-    reachable state means it has no cached value (`RInv.req`) —; the new active server `j` is the first server
-    after the FAILING server `srv` that has no channel yet, it gets a channel (`build j`) and every watched
-    resource is subscribed on it; the watchers hear nothing.
+/-- **C44, fallback.** The only event that moves the active server to a lower priority is a failure of the
+    ACTIVE server's stream before any response (`afterRecv = false`) while some watched resource is still in
+    state REQUESTED — which in every reachable state means it has no cached value (`fallback_needs_uncached_watch`);
+    the new active server `j` is the first server after it without a channel, it gets a channel (`build j`) and
+    every watched resource is subscribed on it; the watchers hear nothing.
 
-    `_partial`: the statement says "the ACTIVE server's stream failed". The code (and so the model) keys the
-    decision on the failing server, which need not be the active one: see
-    `fallback_full_statement_counterexample`. What holds is `srv < j` with every server strictly between
-    already having a channel (so `srv ≤ i < j` whenever the channels form a prefix). -/
-theorem fallback_only_if_failed_before_any_response_and_uncached_watch_partial
+    Before /repo 98104fb the code keyed the decision on the FAILING server, which need not be the active one (a
+    still-down primary, or a stale report of a released channel): this theorem was `…_partial` and
+    `fallback_full_statement_counterexample` refuted the literal statement on the history
+    `[watch, failure 0, failure 0]` with three servers (findings F40 / F41, now fixed). -/
+theorem fallback_only_if_failed_before_any_response_and_uncached_watch
     (a : Auth) (e : AEv) (i j : Nat) (hi : a.active = some i) (hj : (a.step e).auth.active = some j) (hlt : i < j) :
-    ∃ srv, e = .failure srv false ∧
+    e = .failure i false ∧
       (∃ p ∈ a.res, p.2.status = .requested) ∧
-      srv < j ∧ j < a.n ∧ j ∉ a.opened ∧ (∀ x, srv < x → x < j → x ∈ a.opened) ∧
+      j < a.n ∧ j ∉ a.opened ∧ (∀ x, i < x → x < j → x ∈ a.opened) ∧
       Cmd.build j ∈ (a.step e).cmds ∧ (∀ p ∈ a.res, Cmd.sub j p.1 ∈ (a.step e).cmds) ∧
       (a.step e).cbs = [] := by
   cases e with
@@ -52,13 +52,17 @@ theorem fallback_only_if_failed_before_any_response_and_uncached_watch_partial
     | true => simp [hi] at hj; omega
     | false =>
       by_cases hu : uncachedWatch a = true
-      · cases hn : nextServer a srv with
-        | none => simp [hu, hn, hi] at hj; omega
+      · cases hn0 : fallbackTarget a srv with
+        | none => simp [hu, hn0, hi] at hj; omega
         | some j' =>
-          simp only [Bool.false_eq_true, ↓reduceIte, hu, Bool.not_true, hn, fallbackTo, Option.some.injEq] at hj ⊢
+          simp only [Bool.false_eq_true, ↓reduceIte, hu, Bool.not_true, hn0, fallbackTo, Option.some.injEq] at hj ⊢
           subst hj
+          obtain ⟨hact, hn⟩ := fallbackTarget_some hn0
+          rw [hi] at hact
+          simp only [Option.some.injEq] at hact
+          subst hact
           have hm := mem_nextServer hn
-          refine ⟨srv, rfl, ?_, hm.1, hm.2.1, hm.2.2, ?_, by simp, ?_, trivial⟩
+          refine ⟨rfl, ?_, hm.2.1, hm.2.2, ?_, by simp, ?_, trivial⟩
           · simp only [uncachedWatch, List.any_eq_true, decide_eq_true_eq] at hu
             exact hu
           · exact fun x hx1 hx2 => nextServer_between hn x hx1 hx2
@@ -88,80 +92,62 @@ theorem fallback_needs_uncached_watch (n : Nat) (ign : List Bool) (hist : List A
     (hi : (Auth.run (Auth.init n ign) hist).active = some i)
     (hj : ((Auth.run (Auth.init n ign) hist).step e).auth.active = some j) (hlt : i < j) :
     ∃ p ∈ (Auth.run (Auth.init n ign) hist).res, p.2.watchers ≠ [] ∧ p.2.cache = none := by
-  obtain ⟨srv, _, ⟨p, hp, hst⟩, _⟩ :=
-    fallback_only_if_failed_before_any_response_and_uncached_watch_partial _ e i j hi hj hlt
+  obtain ⟨_, ⟨p, hp, hst⟩, _⟩ :=
+    fallback_only_if_failed_before_any_response_and_uncached_watch _ e i j hi hj hlt
   have hinv := inv_run hist _ (inv_init n ign) hf
   have hw := watched_run hist _ (inv_init n ign) (by intro p hp; simp [Auth.init] at hp) hf
   exact ⟨p, hp, hw p hp, (hinv.rinv p hp).req hst⟩
 
-/-- The full statement ("only when the ACTIVE server's stream failed …") as a predicate on the model. -/
-def FullStatement : Prop :=
-  ∀ (n : Nat) (ign : List Bool) (hist : List AEv) (e : AEv) (i j : Nat),
-    (Auth.run (Auth.init n ign) hist).active = some i →
-    ((Auth.run (Auth.init n ign) hist).step e).auth.active = some j → i < j →
-    e = .failure i false
-
-/-- It is false of the code as it is: with three servers, the primary down and the secondary connected (no
-    response yet), the next failed attempt on the PRIMARY makes the client open the tertiary and switch to it,
-    although the active secondary never failed. (Reproduced on the real client by the harness:
-    `cfg 3 000 c44 / down 0 / watch T r1 1 / sleep 1000`; known finding F19.) -/
-theorem fallback_full_statement_counterexample : ¬ FullStatement := by
-  intro h
-  have := h 3 [false, false, false] [.watch ⟨"T", "r"⟩ 1, .failure 0 false] (.failure 0 false) 1 2
-    (by decide) (by decide) (by decide)
-  simp at this
-
-/-- Conversely the fallback does happen: a failure before any response, an uncached watch and a server after
-    the failing one without a channel switch the active server to the first such server, silently. -/
-theorem fallback_if (a : Auth) (srv j : Nat) (hu : uncachedWatch a = true) (hn : nextServer a srv = some j) :
+/-- Conversely the fallback does happen: a failure of the active server before any response, an uncached watch
+    and a server after it without a channel switch the active server to the first such server, silently. -/
+theorem fallback_if (a : Auth) (srv j : Nat) (hact : a.active = some srv) (hu : uncachedWatch a = true)
+    (hn : nextServer a srv = some j) :
     (handleFailure a srv false).auth.active = some j ∧ (handleFailure a srv false).cbs = [] ∧
     j ∈ (handleFailure a srv false).auth.opened ∧
     ∀ p ∈ (handleFailure a srv false).auth.res, j ∈ p.2.chans := by
-  simp only [handleFailure, Bool.false_eq_true, ↓reduceIte, hu, Bool.not_true, hn, fallbackTo, List.mem_append,
+  have ht : fallbackTarget a srv = some j := by simp [fallbackTarget, hact, hn]
+  simp only [handleFailure, Bool.false_eq_true, ↓reduceIte, hu, Bool.not_true, ht, fallbackTo, List.mem_append,
     List.mem_singleton, or_true, List.mem_map, true_and]
   rintro p ⟨q, _, rfl⟩
   simp
 
-/-- No fallback after a response was received on the stream, nor when nothing is uncached, nor when no server is
-    left: the state does not change (the watchers are told, except in the first case). -/
+/-- No fallback after a response was received on the stream, nor when nothing is uncached, nor when the failing
+    server is not the active one (a higher-priority server still down while in fallback, or a stale report of a
+    released channel), nor when no server is left: the state does not change (the watchers are told, except in the
+    first case). -/
 theorem no_fallback_otherwise (a : Auth) (srv : Nat) (after : Bool)
-    (h : after = true ∨ uncachedWatch a = false ∨ nextServer a srv = none) :
+    (h : after = true ∨ uncachedWatch a = false ∨ a.active ≠ some srv ∨ nextServer a srv = none) :
     (handleFailure a srv after).auth = a ∧ (handleFailure a srv after).cmds = [] := by
-  unfold handleFailure
-  rcases h with rfl | h | h
-  · simp
-  · cases after <;> simp [h]
-  · cases after <;> by_cases hu : uncachedWatch a = true <;> simp [hu, h]
+  have key : fallbackTarget a srv = none →
+      (handleFailure a srv after).auth = a ∧ (handleFailure a srv after).cmds = [] := by
+    intro ht
+    unfold handleFailure
+    cases after <;> by_cases hu : uncachedWatch a = true <;> simp [hu, ht]
+  rcases h with rfl | h | h | h
+  · simp [handleFailure]
+  · unfold handleFailure; cases after <;> simp [h]
+  · exact key (by simp [fallbackTarget, h])
+  · exact key (by unfold fallbackTarget; split <;> simp [h])
 
 /-! ### which channels exist -/
 
-/-- histories whose failure reports and updates all come from servers the authority has a channel to at that
-    moment (what the xDS client delivers unless a report races with the release of its channel) -/
-def FromOpenRun : Auth → List AEv → Prop
-  | _, [] => True
-  | a, e :: es => FromOpen a e ∧ FromOpenRun (a.step e).auth es
-
-/-- **C44, channels created / released.** In every such history the authority holds channels to exactly the
-    servers 0 … active (none when nothing is watched): each fallback opens the server right after the active one,
-    each revert to `srv` leaves exactly 0 … srv. -/
-theorem channels_are_prefix_up_to_active (n : Nat) (ign : List Bool) (hist : List AEv)
-    (h : FromOpenRun (Auth.init n ign) hist) : Prefix (Auth.run (Auth.init n ign) hist) := by
-  have : ∀ (es : List AEv) (a : Auth), Prefix a → FromOpenRun a es → Prefix (Auth.run a es) := by
+/-- **C44, channels created / released.** In EVERY history (stale reports of released channels included, since
+    /repo 98104fb) the authority holds channels to exactly the servers 0 … active (none when nothing is watched):
+    each fallback opens the server right after the active one, each revert to `srv` leaves exactly 0 … srv. -/
+theorem channels_are_prefix_up_to_active (n : Nat) (ign : List Bool) (hist : List AEv) :
+    Prefix (Auth.run (Auth.init n ign) hist) := by
+  have : ∀ (es : List AEv) (a : Auth), Prefix a → Prefix (Auth.run a es) := by
     intro es
     induction es with
-    | nil => intro a hp _; exact hp
-    | cons e es ih => intro a hp hf; exact ih _ (prefix_step hp hf.1) hf.2
-  exact this hist _ ⟨by simp [Auth.init], by simp [Auth.init]⟩ h
+    | nil => intro a hp; exact hp
+    | cons e es ih => intro a hp; exact ih _ (prefix_step hp)
+  exact this hist _ ⟨by simp [Auth.init], by simp [Auth.init]⟩
 
-/-- … and then a fallback always goes from the active server `i` to `i + 1`, triggered by a failure of a server
-    at or above the active one (`srv ≤ i`). -/
-theorem fallback_goes_to_next (a : Auth) (hp : Prefix a) (e : AEv) (he : FromOpen a e) (i j : Nat)
-    (hi : a.active = some i) (hj : (a.step e).auth.active = some j) (hlt : i < j) :
-    j = i + 1 ∧ ∃ srv, e = .failure srv false ∧ srv ≤ i := by
-  obtain ⟨srv, rfl, _, h1, _, h3, h4, _⟩ :=
-    fallback_only_if_failed_before_any_response_and_uncached_watch_partial a e i j hi hj hlt
-  have hs : srv ≤ i := (hp.2 i hi srv).mp he
-  refine ⟨?_, srv, rfl, hs⟩
+/-- … and then a fallback always goes from the active server `i` to `i + 1`. -/
+theorem fallback_goes_to_next (a : Auth) (hp : Prefix a) (e : AEv) (i j : Nat)
+    (hi : a.active = some i) (hj : (a.step e).auth.active = some j) (hlt : i < j) : j = i + 1 := by
+  obtain ⟨_, _, _, _, h4, _⟩ :=
+    fallback_only_if_failed_before_any_response_and_uncached_watch a e i j hi hj hlt
   rcases Nat.lt_or_ge (i + 1) j with h | h
   · have := (hp.2 i hi (i + 1)).mp (h4 (i + 1) (by omega) h); omega
   · omega
@@ -244,15 +230,15 @@ theorem watch_during_fallback_is_lost_on_revert :
     a.active = some 0 ∧ (lookup a.res ⟨"T", "r2"⟩).map (fun r => (r.watchers, r.chans)) = some ([2], []) := by
   decide
 
-/-- A failure report of a server whose channel the authority has already released (it was queued behind the
-    update that reverted to the primary) still triggers a fallback: the authority ends up on server 2 while the
-    primary is healthy (known finding F20). -/
-theorem stale_failure_report_triggers_fallback :
+/-- A failure report of a server whose channel the authority has already released (queued behind the update that
+    reverted to the primary) no longer moves the authority (before /repo 98104fb it ended on server 2 with channels
+    {0, 2}: finding F41); the watchers are merely told about the connection error. -/
+theorem stale_failure_report_does_not_trigger_fallback :
     let a := Auth.run (Auth.init 3 [false, false, false])
       [.watch ⟨"T", "r1"⟩ 1, .watch ⟨"T", "r2"⟩ 2, .failure 0 false,
        .update 0 1 "T" "v1" [("r1", .ok "c")],   -- the primary is back: revert, server 1 released
        .failure 1 false]                          -- the report server 1's channel had already queued
-    a.active = some 2 ∧ a.opened = [0, 2] := by
+    a.active = some 0 ∧ a.opened = [0] := by
   decide
 
 end GrpcProofs.C44
